@@ -80,6 +80,22 @@ CHECKS = {
         "dt0/2^k and ncomp n0*2^k on the real code (all backends) against RC relaxation and the sealed-cable Green's function; observed "
         "orders must be 1/2/2 and time errors below the proved bounds.",
    note=TRUST + "A limit statement for arbitrary (non-uniform, branched) geometries is not proved; the ladders are finite. Partial."),
+ "C06": dict(cat="proof", ref="DESIGN.md §4 C06",
+   technique="Lean 4: nested checkpoint scan = flat scan for every layout/depth, recordings invariant under padding (core Lean, induction over the list of lengths); jit/vmap/purity measured on the implementation",
+   text="Theorems for every step function, state, input list and every list of positive lengths of any depth: the model of "
+        "_inner_nested_scan equals the flat scan; integrate's recordings are the same for every checkpoint layout whose product "
+        "covers the run; column k is the recorded state after k steps. The real nested_checkpoint_scan is compared exactly (int64) "
+        "with the model; integrate is run eagerly, under jit, under vmap over stimuli and parameters and with random layouts; the "
+        "module is snapshotted before/after and repeated calls must be bit-identical.",
+   note=TRUST + "jit, vmap, XLA fusion and Python aliasing are runtime behaviour: measured (1e-9 / bit-identical / snapshot equality), not proved."),
+ "C07": dict(cat="proof", ref="DESIGN.md §4 C07",
+   technique="Lean 4: fold/scan composition theorems (append, split, manual stepping, returned state under masked padding) + implementation runs",
+   text="Theorems on the model of integrate's time axis: a run over xs++ys equals chained runs through the returned state; any "
+        "partition into consecutive calls equals the flat run; stepping manually reproduces every column; the returned state is the "
+        "state at the last returned time point for EVERY layout with sufficient product (padding steps are masked). The implementation "
+        "is run on random cells/networks with all solver x backend pairs, random 2-3-way splits, manual stepping with "
+        "build_init_and_step_fn and exact/padded checkpoint layouts; states and recordings compared to 1e-8.",
+   note=TRUST + "Float runs compared to 1e-8. F6 (state returned after padded steps) was fixed in jaxley/integrate.py; the model follows the fixed code."),
 }
 
 def main():
